@@ -22,6 +22,7 @@ class Values:
         self.part_values = set()
         self.value_changes = 0
         self.checked_poke = False
+        self.batches_poked = set()
 
     def check_history(self, name, obj, initial, now):
         h = obj.value_history
@@ -74,6 +75,16 @@ class Values:
                             ctx.report('batch_value', f'batch {top.name}: value {top.value!r} != sum of parts')
                             return
                         ctx.count('batch_value_checks')
+                        if id(top) not in self.batches_poked:
+                            # a batch has no value of its own: add_value must refuse
+                            self.batches_poked.add(id(top))
+                            try:
+                                top.add_value('poke', 1.0)
+                                ctx.report('batch_value', f'batch {top.name} accepted add_value(); it is now worth '
+                                           f'{top.value!r}, its parts {sum(x.value for x in lv)!r}')
+                                return
+                            except NotImplementedError:
+                                ctx.count('batch_add_value_refused')
                     for leaf in lv:
                         init = getattr(leaf, 'h_initial_value', None)
                         if init is None:
@@ -111,7 +122,7 @@ class Values:
             t, did, what, tag, ser = log.hooks[self.n_hooks]
             self.n_hooks += 1
             if what == 'start' and self.maints:
-                self.order_cost[self.maints[0]] += m.items[did]['wo'][tag][2]
+                self.order_cost[self.maints[0]] += (m.items[did].get('wo') or {}).get(tag, [0, 0, 0])[2]
                 ctx.count('orders_costed')
         for mm in self.maints:
             dev = m.devs[mm]
